@@ -280,6 +280,38 @@ func (e *explorer) execBlock(st *pstate, fr *frame, b, prev *ssa.BasicBlock, idx
 			if e.CellStore != nil {
 				if cell, val, ok := e.CellStore(x, fr); ok {
 					v := e.eval(val, st, fr)
+					// loads of this cell that were executed before the store keep the value they read (SSA values
+					// are immutable): freeze every such load that is still evaluated lazily through the cell
+					if e.CellOf != nil {
+						sb := x.Block()
+						for _, lb := range fr.fn.Blocks {
+							if lb != sb && !lb.Dominates(sb) {
+								continue
+							}
+							for _, li := range lb.Instrs {
+								if li == in {
+									break
+								}
+								lv, isVal := li.(ssa.Value)
+								if !isVal {
+									continue
+								}
+								if _, isLoad := li.(*ssa.UnOp); !isLoad {
+									continue
+								}
+								if _, have := fr.vals[lv]; have {
+									continue
+								}
+								if cl, isCell := e.CellOf(lv, fr); isCell && cl == cell {
+									if old, haveOld := st.cells[cell]; haveOld {
+										fr.vals[lv] = old
+									} else {
+										fr.vals[lv] = unk()
+									}
+								}
+							}
+						}
+					}
 					st.cells[cell] = v
 					st.events = append(st.events, fmt.Sprintf("set %s=%s", cell, v))
 					continue
